@@ -365,9 +365,43 @@ type vC18Stalled struct{ node *vC18Node }
 
 const vC18StallFor = 3 * time.Second
 
+// Bounded liveness as a recorded observation.  While a dispatcher step is awaited the
+// driver watches for QUIESCENCE: the server is up and controller (promotion finished),
+// nothing blocks the activity partition, no step-down is pending, the dispatcher is not
+// held at either gate, and for vC18QuietFor nothing at all happened: no publish, no
+// record, no failure report (a dispatcher that retries logs a failure at least every
+// maxActivityPublishBackoff + publish timeout = 12 s), Raft idle.  Such a state is
+// recorded as a "Quiet" line; TLC requires that nothing committed is unpublished in it
+// (C18_IdleMeansPublished).  Nothing is fed to the server afterwards.
+type vC18Quiet struct {
+	node *vC18Node
+	what string
+}
+
+const (
+	vC18QuietFor     = 15 * time.Second
+	vC18WaitDeadline = 45 * time.Second
+)
+
+type vC18Pulse struct {
+	pubFails, recFails, lp, newest int64
+	raftLast                       uint64
+}
+
+func (r *vC18Run) pulse(n *vC18Node) vC18Pulse {
+	p := vC18Pulse{pubFails: atomic.LoadInt64(&n.pubFails), recFails: atomic.LoadInt64(&n.recFails),
+		lp: int64(n.srv.activity.LastPublishedRaftIndex()), newest: -1}
+	if part := n.activityPartition(); part != nil && part.log != nil {
+		p.newest = part.log.NewestOffset()
+	}
+	p.raftLast = n.srv.getRaft().LastIndex()
+	return p
+}
+
 func (r *vC18Run) waitDispatcher(n *vC18Node, what string, cond func() bool) {
-	deadline := time.Now().Add(vC18Deadline)
-	var zeroSince time.Time
+	deadline := time.Now().Add(vC18WaitDeadline)
+	var zeroSince, quietSince time.Time
+	var last vC18Pulse
 	for !cond() {
 		now := time.Now()
 		if now.After(deadline) {
@@ -384,6 +418,19 @@ func (r *vC18Run) waitDispatcher(n *vC18Node, what string, cond func() bool) {
 			continue
 		}
 		zeroSince = time.Time{}
+		if ctl && !n.blocked && !n.gate.isParked() && !vC18Append.isParked() {
+			rn := n.srv.getRaft()
+			cur := r.pulse(n)
+			idle := rn.AppliedIndex() >= rn.LastIndex() && rn.getCommitIndex() >= rn.LastIndex()
+			if quietSince.IsZero() || cur != last || !idle {
+				quietSince, last = now, cur
+			} else if now.Sub(quietSince) > vC18QuietFor {
+				panic(vC18Quiet{n, what})
+			}
+			time.Sleep(5 * time.Millisecond)
+			continue
+		}
+		quietSince = time.Time{}
 		time.Sleep(time.Millisecond)
 	}
 }
@@ -908,6 +955,16 @@ func TestVerifC18(t *testing.T) {
 						ev := vC18Event{T: b.ID, A: "Stalled", Args: map[string]interface{}{"n": stl.node.id}, St: r.state(stl.node)}
 						tw.Emit(ev)
 						tw.Emit(map[string]interface{}{"t": b.ID, "a": "Completed"})
+						return
+					}
+					if q, ok := p.(vC18Quiet); ok {
+						ev := vC18Event{T: b.ID, A: "Quiet", Args: map[string]interface{}{"n": q.node.id,
+							"ms": int64(vC18QuietFor / time.Millisecond)}, St: r.state(q.node)}
+						tw.Emit(ev)
+						// if TLC finds nothing wrong with the quiet state the scenario simply
+						// did not reach its target: inconclusive
+						timeouts++
+						tw.Emit(map[string]interface{}{"t": b.ID, "a": "Abandoned", "why": "quiescent while waiting for " + q.what})
 						return
 					}
 					if inc, ok := p.(vC18Inconclusive); ok {
